@@ -164,9 +164,9 @@ func c18AmRun(c *Ctx, l *lib.Lean, name string, ops []string) (bool, error) {
 			kb, okb := before.Index[key]
 			ka, oka := after.Index[key]
 			took := oka && (!okb || ka.Refs != kb.Refs) // the dice of updateAddress for a known address
-			mop = fmt.Sprintf("am add %d -", a)
+			mop = fmt.Sprintf("am add %d %d 0", a, b)
 			if took {
-				mop = fmt.Sprintf("am add %d %d", a, b)
+				mop = fmt.Sprintf("am add %d %d 1", a, b)
 			}
 			if e, banned := r.banEnd[a]; !(banned && r.tick < e) {
 				r.have[a] = true
